@@ -11,32 +11,13 @@ import (
 
 func TestProbe(t *testing.T) {
 	qs := []string{
-		"SELECT *, upper(a) AS u FROM s",
-		"SELECT COUNT(*) AS c, AVG(x), k FROM s GROUP BY k, TumblingWindow('1s')",
-		"SELECT a FROM s LIMIT 0",
-		"SELECT a AS limit_x FROM orders fromage WHERE wherever = 'FROM x WHERE y GROUP BY z'",
-		"SELECT a FROM s WHERE t = \"say 'LIMIT 3'\" ORDER BY a",
-		"SELECT count(*) AS c FROM s GROUP BY TumblingWindow('500ms') WITH(TIMEUNIT = 'ss' , TIMESTAMP='ts' )",
-		"SELECT count(*) AS c FROM s GROUP BY TumblingWindow('2m'), g, h",
-		"SELECT upper(device) AS d, count(*) AS c FROM s GROUP BY upper(device), TumblingWindow('2h')",
-		"SELECT g, sum(x) AS s FROM s GROUP BY g",
-		"SELECT a FROM s ORDER BY m.b DESC, `limit` ASC, c",
-		"select\ta\nfrom\r\ns\twhere\na>1\n",
-		"SELECT a FROM s INNER JOIN m ON id = m.id LEFT OUTER JOIN n AS nn ON s.x = nn.y WHERE a > 1",
-		"SELECT a FROM s WHERE a > 1 GROUP BY g, CountingWindow(5) HAVING count(*) > 1 AND max(x) < 5 LIMIT 3",
-		"SELECT lag(a) AS p, acc_sum(x) OVER (PARTITION BY d WHEN x > 1) AS t FROM s",
-		"SELECT a FROM s WHERE had_changed(true, a)",
-		"SELECT CASE WHEN a > 1 THEN 'x' ELSE 'y' END AS c FROM s",
-		"SELECT a FROM s WHERE a = 1 and b = 2 Or not c like 'x' aNd d is null",
-		"SELECT DISTINCT * FROM s",
-		"SELECT a , b FROM s LIMIT 5 ",
-		"SELECT a FROM s LIMIT\n5",
-		"SELECT a FROM s ORDER\nBY\ta\nDESC\nLIMIT\t5",
-		"SELECT a.b.c AS x, arr[0] AS y FROM s",
-		"SELECT a FROM `from`",
-		"SELECT a AS `select` FROM s",
-		"SELECT count(*) AS c FROM s GROUP BY SessionWindow('5s') WITH (TIMESTAMP='order', TIMEUNIT='ms')",
-		"SELECT count(*) AS c FROM s GROUP BY TumblingWindow('5s') WITH (TIMESTAMP='ts') HAVING c > 100",
+		"SELECT g, count(*) AS c FROM s GROUP BY g WITH (TIMESTAMP='ts', TIMEUNIT='ss', MAXOUTOFORDERNESS='2s')",
+		"SELECT g, count(*) AS c FROM s GROUP BY g WITH (TIMESTAMP='ts')",
+		"SELECT timestamp, window, `end` FROM s WHERE timestamp > 1 ORDER BY timestamp",
+		"SELECT tags[0] AS y, meta.items[1].name FROM s",
+		"SELECT lag(x) AS p, acc_sum(x) OVER (PARTITION BY a, `b` WHEN x > 1 AND y = 2) AS t, a FROM s WHERE a > 1",
+		"SELECT a FROM s WHERE b LIKE \"x%\"",
+		"SELECT * FROM stream MATCH_RECOGNIZE (ORDER BY ts PATTERN (`A` B) DEFINE `A` AS v > 0)",
 	}
 	for _, q := range qs {
 		cfg, cond, err := rsql.Parse(q)
